@@ -97,6 +97,27 @@ def canonical_lexical(g):
     return True
 
 
+def max_depth_cases(out, tmp):
+    """--max-depth N on the command line is max_validation_depth=N of the API: same outcome on a chain of nested shapes"""
+    sp, dp = os.path.join(tmp, "md_s.ttl"), os.path.join(tmp, "md_d.nt")
+    open(sp, "w").write("""@prefix sh: <http://www.w3.org/ns/shacl#> . @prefix ex: <http://ex.test/> .
+        ex:S1 a sh:NodeShape ; sh:targetNode ex:a ; sh:node ex:S2 . ex:S2 a sh:NodeShape ; sh:node ex:S3 .
+        ex:S3 a sh:NodeShape ; sh:node ex:S4 . ex:S4 a sh:NodeShape ; sh:nodeKind sh:BlankNode .""")
+    open(dp, "w").write("<http://ex.test/a> <http://ex.test/p> <http://ex.test/b> .\n")
+    for depth in (1, 2, 3, 4, 9):
+        out.evaluations += 1
+        try:
+            c, _g, _t = pyshacl.validate(dp, shacl_graph=sp, max_validation_depth=depth)
+            api = 0 if c else 1
+        except Exception as e:  # noqa
+            api = 2
+        rc, _so, _se = run_cli([dp, "-s", sp, "--max-depth", str(depth)], tmp)
+        out.count("cli:max-depth")
+        if rc != api:
+            out.b_fail.append({"signature": "C18:cli:max-depth-ignored", "case": {"max_depth": depth, "args": ["d.nt", "-s", "s.ttl", "--max-depth", str(depth)]},
+                               "cli_status": rc, "api_status": api})
+
+
 def run_cli(args, cwd):
     env = dict(os.environ, PYTHONPATH=os.environ.get("VERIF_REPO", "/repo"), PYTHONWARNINGS="ignore")
     p = subprocess.run(["/venv/bin/python", "-m", "pyshacl"] + args, cwd=cwd, env=env, stdout=subprocess.PIPE, stderr=subprocess.PIPE, timeout=180)
@@ -217,6 +238,7 @@ def run(ctx, out):
                     for fmt in FORMATS + ["human", "table"]:
                         jobs.append((case, [dp, "-s", sp, "-f", fmt] + flags, fmt, ref))
             out.sample({"label": label, "options": kw, "results": len(base[2]), "conforms": base[1]})
+        max_depth_cases(out, tmp)
         with ThreadPoolExecutor(max_workers=16) as ex:
             results = list(ex.map(lambda j: run_cli(j[1], tmp), jobs))
         lines = ["x%d exit report %d" % (n, 1 if ref[1] else 0) for n, (_c, _a, _f, ref) in enumerate(jobs)]
